@@ -282,14 +282,15 @@ func ZZ_C06_ViSearch() {
 	pat := small("s", k)
 	script := &zzverif.Script{}
 	rl := zzSession(script)
+	// the history source is bound before Readline is called, as applications do
+	src := history.NewInMemoryHistory()
+	src.Write("zz")
+	src.Write(string(entry))
+	rl.History.Add("zzhist", src)
 	wait := 0
 	script.OnWait = func() {
 		if wait == 0 {
 			wait++
-			src := history.NewInMemoryHistory()
-			src.Write("zz")
-			src.Write(string(entry))
-			rl.History.Add("zzhist", src)
 			rl.Keymap.SetMain(keymap.ViCommand)
 			script.Chunks = [][]byte{[]byte(key)}
 			for _, r := range pat {
